@@ -16,7 +16,7 @@ from fractions import Fraction
 from .. import facts, tlc
 
 IRREGULAR = {"foot": "feet", "inch": "inches", "hertz": "hertz", "lb": "lbs"}
-LITERALS = ["3", "0.5", "12.25", "1e3", "-1.5", "+4", "2.5E-2", ".5", "7."]
+LITERALS = ["3", "0.5", "12.25", "1e3", "-1.5", "+4", "2.5E-2", ".5", "7.", "0", "0.0", "-0"]
 _G = {}
 
 
@@ -127,6 +127,9 @@ def make_events(f, quick, seed):
                         add(mtxt.capitalize() + u["plural"], u["prefix"], u=u, m=m)
                 else:
                     add((mtxt + base).swapcase(), u["prefix"], u=u, m=m)
+                    # only the prefix symbol / only the unit symbol in the other letter case (`Km`, `kM`)
+                    add(mtxt.swapcase() + base, u["prefix"], u=u, m=m)
+                    add(mtxt + base.swapcase(), u["prefix"], u=u, m=m)
             for m in (wrong_pool if not quick else wrong_pool[(seed + n) % max(1, len(wrong_pool)):][:2]):
                 add(m["name"] + (u["name"] if u["sym"] else u["lname"]), u["prefix"], u=u, m=m)
         for u in (foreign if not quick else [foreign[(seed + ti * 3 + k * 11) % len(foreign)] for k in range(4)] if foreign else []):
@@ -196,6 +199,12 @@ def validate_schema(args):
             # which declared (unit x modifier) factor explains the value?  TLC then checks that this factor belongs
             # to a unit/modifier the TEXT actually selects (several may, e.g. score 'uV' = unit uV or micro-V)
             order = ([e["built"]] if e["built"] else []) + e["cands"]
+            if n == 0:          # zero times any factor: the value must be 0 (every factor explains it; the expected one is recorded)
+                if got == 0:
+                    o["zero"] = True
+                else:
+                    numeric_bad.append((e["text"], o["value"], "0 (zero times the factor)"))
+                continue
             for fm, fe in order:
                 want = n * Fraction(fm) * Fraction(10) ** fe
                 if want != 0 and abs(got - want) <= abs(want) * Fraction(1, 10 ** 9):
@@ -207,7 +216,8 @@ def validate_schema(args):
                 if abs(Fraction(float(o["value2"])) - 2 * got) > abs(got) * Fraction(1, 10 ** 9):
                     numeric_bad.append((e["text"], "doubling the number gives %s, expected 2 x %s" % (o["value2"], o["value"]), "linear"))
     events = [{"classes": e["classes"], "raw": e["raw"], "folded": e["folded"], "before": e["before"], "kind": e["kind"],
-               "obs": {"invalid": o["invalid"], "othererr": o["othererr"], "conv": o["conv"], "fm": o["fm"], "fe": o["fe"]}}
+               "obs": {"invalid": o["invalid"], "othererr": o["othererr"], "conv": o["conv"], "fm": o["fm"], "fe": o["fe"],
+                       "zero": bool(o.get("zero"))}}
               for e, o in zip(evs, obs)]
     path = os.path.join(work, "units_%s.json" % version)
     with open(path, "w") as fh:
